@@ -269,3 +269,10 @@ Definition bern_sample (dist : N * N) (prng : list N) : res (bool * list N) :=
 
 (* Iterator::sum over unsigned numbers *)
 Definition sum_N (l : list N) : N := fold_right N.add 0 l.
+
+(* the server binary's main: the threads it spawns, and how the process ends (process::exit(code) with the
+   threads spawned so far) *)
+Inductive thr := TWorker (i : N) | TReporter.
+Inductive exitw := ExitWith (code : N) (spawned : list thr).
+Definition unwrap_x {A} (site : nat) (x : outcome exitw A) : outcome exitw A :=
+  match x with Ok a => Ok a | Err _ => Panic site | Panic s => Panic s end.
